@@ -40,7 +40,7 @@ def render : Expr → String
   | cst v s f => hexInt (cstValue v s f)
   | reg n _ _ => n
   | ext n _ _ => "@" ++ n
-  | slc x p s _ r =>
+  | slc x p s _ r _ =>
       match r with
       | some n => n
       | none => render x ++ "[" ++ toString p ++ ":" ++ toString (p + s) ++ "]"
@@ -68,7 +68,7 @@ end
 
 /-- `slc.raw()` -/
 def rawSlc : Expr → String
-  | slc x p s _ _ => render x ++ "[" ++ toString p ++ ":" ++ toString (p + s) ++ "]"
+  | slc x p s _ _ _ => render x ++ "[" ++ toString p ++ ":" ++ toString (p + s) ++ "]"
   | e => render e
 
 /-- `hash(a) == hash(b)` as the code uses it in `exp.__eq__` & co. (`hash(str)+size`; `slc` hashes its raw
@@ -86,11 +86,12 @@ def symbolsOf : Expr → List String
   | cst .. => []
   | reg n _ _ => [n]
   | ext n _ _ => ["@" ++ n]
-  | slc x p s f r =>
-      match x with
-      | reg .. => [render (slc x p s f r)]
-      | ext .. => [render (slc x p s f r)]
-      | _ => symbolsOf x
+  | slc x p s _ r k =>
+      if k != 0 then
+        [match r with
+         | some n => n
+         | none => render x ++ "[" ++ toString p ++ ":" ++ toString (p + s) ++ "]"]
+      else symbolsOf x
   | comp _ _ ps => symbolsParts ps
   | tst t l r _ _ => symbolsOf t ++ symbolsOf l ++ symbolsOf r
   | op _ l r _ _ _ => symbolsOf l ++ symbolsOf r
